@@ -184,6 +184,13 @@ Proof.
   - rewrite H. reflexivity.
 Qed.
 
+Theorem unmarshal_gen_new_reader_eq legacy E data sched eofd : peekable data ->
+  unmarshal_gen_on legacy E (new_reader data sched eofd) = unmarshal_gen legacy E data.
+Proof.
+  intros Hp. destruct (new_reader_ok data sched eofd) as [Hi Hc].
+  rewrite (unmarshal_gen_on_eq legacy E _ Hi); rewrite Hc; [reflexivity|exact Hp].
+Qed.
+
 (* sms.Unmarshal over bufio.NewReader(r), r handing out the octets by ANY schedule of read sizes, io.EOF with the last
    piece or after it: the list decoder on the octets *)
 Theorem unmarshal_reader_eq E data sched eofd : octets data ->
